@@ -50,6 +50,9 @@
 (*   k = "bookmark"           BOOKMARK event at a fresh resourceVersion    *)
 (*   k = "churn"              thousands of metadata-only updates of an     *)
 (*                            offered object n in a row, ending in o       *)
+(*   k = "listpart"           the pending LIST is answered in pages (one   *)
+(*                            object per page) and only the FIRST page    *)
+(*                            arrives: the next page request fails         *)
 (*   k = "listfail"           the pending LIST request is answered with a  *)
 (*                            server error: the client asks again later    *)
 (***************************************************************************)
@@ -68,6 +71,11 @@ Offer(n, o) == [id |-> n, ip |-> o.addr, port |-> o.ports[1], state |-> o.state,
 
 \* THE set of the property: O is the API-server object map (name -> description | None)
 ReadySetOf(O) == {Offer(n, O[n]) : n \in {m \in DOMAIN O : Offerable(O[m])}}
+
+\* the order in which the API server lists objects (by name)
+NameSeq == <<"a", "b", "c">>
+FirstIn(O) == LET I == {i \in 1..Len(NameSeq) : NameSeq[i] \in DOMAIN O /\ Exists(O[NameSeq[i]])} IN
+              NameSeq[CHOOSE i \in I : \A j \in I : i <= j]
 
 IsWrite(s) == s.k \in {"create", "modify", "churn", "delete"}
 
@@ -141,10 +149,27 @@ C20_UnconvertibleNotOffered(steps, offered, i) ==
 \* watcher had announced the re-list) and before it was answered.
 LastObserved(steps, i) == LET G == {g \in 1..(i-1) : steps[g].k = "gone"}
                           IN IF G = {} THEN 0 ELSE (CHOOSE g \in G : \A h \in G : h <= g) - 1
+\* ... brought up to date, object by object, by the pages of LISTs that were answered only in part since then (step "listpart":
+\* the first object in listing order was observed as it was at that moment)
+RECURSIVE PartsApplied(_, _, _, _)
+PartsApplied(steps, from, upto, V) ==
+  IF from > upto THEN V
+  ELSE IF steps[from].k = "listpart"
+       THEN LET O == ObjsSeq(steps)[from]  f == FirstIn(O) IN PartsApplied(steps, from + 1, upto, [V EXCEPT ![f] = O[f]])
+       ELSE PartsApplied(steps, from + 1, upto, V)
+\* what the client has observed by step i while a LIST is (still) outstanding
+\* (i = the step in question, upto = the last step whose pages count)
+ObservedWhilePending(steps, i, upto) == PartsApplied(steps, LastObserved(steps, i) + 1, upto, ObjsSeq(steps)[LastObserved(steps, i)])
 C20_KeptWhileRelisting(steps, held, i) ==
   steps[i].k = "list" =>
-     /\ OfferedSet(held, i) = Expected(steps, LastObserved(steps, i))
+     /\ OfferedSet(held, i) = ReadySetOf(ObservedWhilePending(steps, i, i - 1))
      /\ Cardinality(OfferedSet(held, i)) = Len(held[i])
+\* a page of a LIST is applied when it arrives, not when (and if) the whole LIST is complete: right after a "listpart" step the
+\* objects of the page that arrived are offered / no longer offered according to what the page showed
+C20_PageAppliedOnArrival(steps, offered, i) ==
+  steps[i].k = "listpart" =>
+     /\ OfferedSet(offered, i) = ReadySetOf(ObservedWhilePending(steps, i, i))
+     /\ Cardinality(OfferedSet(offered, i)) = Len(offered[i])
 
 \* "for every sequence of watch events including reconnects and re-lists": the client keeps following the API server -- it asks for
 \* the LIST again after a failed one (R.gaveUp: it never did within the harness's patience, at the step the record ends with)
@@ -157,7 +182,7 @@ C20_NeverMissingWhileReady(R, i) ==
   (R.steps[i].k = "churn" /\ i > 1 /\ Judged(R.steps, i - 1) /\ R.steps[i].n \in Ids(OfferedSet(R.offered, i - 1))) => R.flicker[i] = 0
 
 ClauseNames(p) ==
-  CASE p = "C20" -> {"C20_NeverMissingWhileReady", "C20_KeepsFollowing", "C20_OffersExactlyReady", "C20_CurrentAddressPort", "C20_CurrentMetadata",
+  CASE p = "C20" -> {"C20_PageAppliedOnArrival", "C20_NeverMissingWhileReady", "C20_KeepsFollowing", "C20_OffersExactlyReady", "C20_CurrentAddressPort", "C20_CurrentMetadata",
                      "C20_DeletedNotOffered", "C20_UnconvertibleNotOffered", "C20_KeptWhileRelisting"}
     [] OTHER -> {}
 
@@ -171,4 +196,5 @@ Clause(n, R, i) ==
     [] n = "C20_KeptWhileRelisting"      -> C20_KeptWhileRelisting(R.steps, R.held, i)
     [] n = "C20_KeepsFollowing"          -> C20_KeepsFollowing(R, i)
     [] n = "C20_NeverMissingWhileReady"  -> C20_NeverMissingWhileReady(R, i)
+    [] n = "C20_PageAppliedOnArrival"    -> C20_PageAppliedOnArrival(R.steps, R.offered, i)
 =============================================================================
